@@ -130,6 +130,13 @@ theorem C02_dinf_sound (E : Env K X Y Z) (hE : E.Lawful) (i : conelp.In K X Y Z)
     calc _ = E.nZ ((1:K) • E.G i.x + (0:K) • 0 + (1:K) • i.s) / (-st.cx) := by ring
       _ ≤ _ := by rw [div_le_iff₀ hpos]; linarith
 
+/-- **The certificate residuals are normalised as documented**: the residual of a dual infeasibility certificate is measured against
+`max(1, ‖h‖)` with the *cone* norm of `h` (only the lower triangles of its 's' blocks are read) and `max(1, ‖b‖)`, that of a primal
+infeasibility certificate against `max(1, ‖c‖)` — the same normalisers `C02_pinf_sound` / `C02_dinf_sound` take as `resx0`, `resy0`, `resz0`. -/
+theorem C02_normalisers (E : Env K X Y Z) (c : X) (b : Y) (h : Z) :
+    conelp.resx0Def E c b h = max 1 (E.nX c) ∧ conelp.resy0Def E c b h = max 1 (E.nY b) ∧ conelp.resz0Def E c b h = max 1 (E.nZ h) :=
+  ⟨by first | rfl | (rw [max_comm]; rfl), by first | rfl | (rw [max_comm]; rfl), by first | rfl | (rw [max_comm]; rfl)⟩
+
 /-- the certificate returns set the other half of the solution to `None` and report the documented constants -/
 theorem C02_result_maps :
     (conelp.returns[2]?).map (fun r => (r.1.filter (fun kv => ["x", "s", "y", "z", "status", "primal objective", "dual objective",
